@@ -1,15 +1,24 @@
 //// módulo 😀
 import gleam/io
 
+/// une étiquette
 pub type Label {
+  /// étiquette simple
   Tag(nom: String)
+  /// rien
+  None
 }
 
+/// dit bonjour
 pub fn greet(name) {
   let msg = "héllo → " <> name // cómment
   io.println(msg)
-  Tag(nom: msg)
+  case Tag(nom: msg) {
+    Tag(nom: n) -> Tag(nom: n)
+    None -> None
+  }
 }
 
+/// marque
 pub const tag = "日本"
 // fin: café
